@@ -34,6 +34,11 @@ pub struct Failure {
     pub detail: String,
 }
 
+pub fn fail_cap() -> u64 {
+    static CAP: std::sync::OnceLock<u64> = std::sync::OnceLock::new();
+    *CAP.get_or_init(|| std::env::var("RWSV_FAILCAP").ok().and_then(|v| v.parse().ok()).unwrap_or(3))
+}
+
 pub fn fnv64(data: &[u8]) -> u64 {
     let mut h: u64 = 0xcbf29ce484222325;
     for b in data {
@@ -175,7 +180,7 @@ impl Ctx {
     pub fn fail(&mut self, signature: &str, mk_case: impl FnOnce() -> Value, detail: String) {
         let c = self.failure_counts.entry(signature.to_string()).or_insert(0);
         *c += 1;
-        if *c <= 3 {
+        if *c <= fail_cap() {
             self.failures.push(Failure { signature: signature.to_string(), case: mk_case(), detail });
         }
     }
